@@ -67,12 +67,13 @@ Fixpoint visit (k : collector) (e : expr) : cres (tree * list entity) :=
       | Some c => Ok (TConst c, [])
       | None => Ok (TName id, [])
       end
-  | EConstant _ c => Ok (TConst c, [])
+  | EConstant p c => if negb (const_plain c) then Err (ErrUnsupported p) else Ok (TConst c, [])
   | EAttribute _ v a ap =>
       bindc (visit k v) (fun rv => Ok (TAttr (fst rv) a, snd rv ++ classify k (fst rv) a ap))
   | EList _ es | ETuple _ es =>
       bindc (mapMc (visit k) es) (fun rs => Ok (TListN (map fst rs), List.concat (map snd rs)))
-  | ECall _ f args kws =>
+  | ECall p f args kws =>
+      if negb (forallb kw_named kws) then Err (ErrUnsupported p) else
       bindc (mapMc (visit k) args) (fun ras =>
       bindc (mapMc (fun kw => match kw with
                               | (n, v) => bindc (visit k v) (fun rv => Ok ((n, fst rv), snd rv))
@@ -236,12 +237,11 @@ Definition rename_patches (r : renamer) (dollars : list Z) (ents : list entity) 
     end) ents.
 
 (* [dollar_ok = false]: get_dollar_replacer(formula) raised SyntaxError (the text does not parse as a module);
-   [ast = None]: ast.parse(formula_nodollar, mode='eval') raised SyntaxError.
-   [repaired = false] is the code as it is: the first call is outside the try.
-   [repaired = true]: notes/proposed_fixes/C17-unparsable-formula.diff (the call moved into the try). *)
-Definition process_renames (repaired : bool) (k : collector) (r : renamer)
+   [ast = None]: ast.parse(formula_nodollar, mode='eval') raised SyntaxError.  Both calls are inside the try
+   (fix commit 8212ac8): "Don't do anything to a syntactically wrong formula". *)
+Definition process_renames (k : collector) (r : renamer)
            (formula : str) (dollar_ok : bool) (dollars : list Z) (ast : option expr) : pr_result :=
-  if negb dollar_ok then (if repaired then PRText formula else PRSyntaxError) else
+  if negb dollar_ok then PRText formula else
   match ast with
   | None => PRText formula
   | Some e =>
@@ -388,8 +388,8 @@ Record c17_case := {
   rc_result : pr_result                   (* what process_renames returned / raised *)
 }.
 
-Definition c17_case_ok (repaired : bool) (c : c17_case) : bool :=
-  pr_result_eqb (process_renames repaired (rc_collector c) (renamer_of (rc_renamer c)) (rc_formula c)
+Definition c17_case_ok (c : c17_case) : bool :=
+  pr_result_eqb (process_renames (rc_collector c) (renamer_of (rc_renamer c)) (rc_formula c)
                                  (rc_dollar_ok c) (rc_dollars c) (rc_ast c)) (rc_result c)
   && (if rc_dollar_ok c then str_eqb (undollar_text (rc_formula c) (rc_dollars c)) (rc_nodollar c) else true)
   && match rc_ast c, rc_entities c with
